@@ -544,6 +544,11 @@ def rules(fx, rep):
     from props import c02
     bitlin.rule_scalar_mul(fx, rep, c02.GROUPS)
     bitlin.rule_projective_mul(fx, rep, c02.GROUPS)
+    # ... built from double / add_assign, whose exceptional cases scalars >= r do reach ([r+2]P adds a point to itself
+    # in another representation): the group-law skeleton and formulas of C01
+    from props import c01
+    c01.rule_projective_ops(fx, rep)
+    c01.rule_general_formulas(fx, rep)
 
 
 def main(tier, t0):
@@ -556,7 +561,7 @@ def main(tier, t0):
         'without an identity of their 68 line values, each to the power 2^(squarings scheduled after it), exactly as G2Prepared::from_affine produces them for the bits of |x|>>1, conjugated for negative x '
         '(compared in the free abelian group on the line values); from_affine short-circuits the identity before any '
         'line computation; (2) wiring: pairing / pairing_product / pairing_multi_product = one final_exponentiation of one miller_loop over (prepare(p_i), prepare(q_i)) with '
-        'matching indices; pairing_with in both directions = Bls12::pairing(G1, G2); (3) final exponentiation exponent (C12) and Fq12 arithmetic (C09); (4) the scalar multiplications forming [a]P, [b]Q (all 256-bit scalars, from C02). '
+        'matching indices; pairing_with in both directions = Bls12::pairing(G1, G2); (3) final exponentiation exponent (C12) and Fq12 arithmetic (C09); (4) the scalar multiplications forming [a]P, [b]Q (all 256-bit scalars, from C02) and the group operations they are built from (exceptional-case skeleton and formulas, from C01). '
         'NOT decided by code analysis: the theorem that Miller\'s algorithm with these lines is bilinear and non-degenerate (mathematics; trusted base).',
         ['rustc MIR', 'Miller / optimal-ate correctness theorem', 'Fq and Fq2 operation contracts'],
         ['every code-level ingredient of the pairing is an obligation; bilinearity itself is the cited theorem; more than 2 pairs not enumerated'])
